@@ -20,6 +20,19 @@ of every returned molecule.  Two ways of fooling a count check have oracle claus
     unsupported ones, repeated tags, BOND before ATOM; generated and bundled records) under every damage operator; the
     skip state is part of the reader model (v_skip) and of the theorems of Proofs/ParseSections.v.
 
+  * `...:unity-damage-accepted` / `...:attributes-differ:<fields>` -- damage INSIDE a section whose length is declared by a count
+    of its own (UNITY_ATOM_ATTR / UNITY_BOND_ATTR: `<id> <n_attr>` + exactly n_attr `<name> <value>` lines): the ATOM / BOND
+    counts stay met, only formal charges / attributes of atoms and bonds change, so these are part of what is observed of a
+    molecule (mol_sig) and EVERY line of every such section is deleted, duplicated, and has its count / id / tokens spoiled
+    (`unity-*`).  A damaged text that is still well-formed and says what was returned is the format limit
+    `optional-section:damaged-text-still-well-formed` (known finding); theorems: Proofs/ParseAttr.v.
+  * `...:none:not-as-written:<field>` / `...:none:record-depends-on-its-predecessors` / `...:entry-point:...` -- the reference for
+    "the undamaged file" is no longer the implementation's own reading alone: every undamaged text is compared with what it
+    SAYS (reference readers of this module, one record at a time, no state), every record of a multi-record text is read on
+    its own and compared with its molecule inside the text, and every text (damaged ones two entry points at a time) goes
+    through every entry point (3 classes x string / path / stream / generator / first record, top-level loaders); family
+    `gen-lib-*`: consecutive records of EQUAL size and different content.
+
 This module also hosts what harness/c08.py shares (generators, canonicalisation, Gen emitters).
 """
 import io, os, sys, math, signal, time, json
@@ -76,7 +89,29 @@ def mol_sig(m):
         "coords_shape": tuple(m.coords.shape),
         "bonds": [(idx.get(id(b.a1), -1), idx.get(id(b.a2), -1), b.btype.name) for b in getattr(m, "bonds", [])],
         "charges": None if ch is None else [float(x) for x in ch],
+        # what the optional sections of a file and the per-record conversions leave on the atoms / bonds (UNITY_ATOM_ATTR ->
+        # Atom.attrib and Atom.formal_charge, UNITY_BOND_ATTR -> Bond.attrib, the type column -> atype / geom) and the name
+        "name": getattr(m, "name", None),
+        "atypes": [getattr(getattr(a, "atype", None), "name", None) for a in m.atoms],
+        "geoms": [getattr(getattr(a, "geom", None), "name", None) for a in m.atoms],
+        "fcharges": [_int_or_repr(getattr(a, "formal_charge", 0)) for a in m.atoms],
+        "aattrib": [_attrib_items(getattr(a, "attrib", None)) for a in m.atoms],
+        "battrib": [_attrib_items(getattr(b, "attrib", None)) for b in getattr(m, "bonds", [])],
     }
+
+
+def _int_or_repr(x):
+    try:
+        return int(x)
+    except (TypeError, ValueError):
+        return repr(x)
+
+
+def _attrib_items(d):
+    try:
+        return sorted((str(k), str(v)) for k, v in dict(d or {}).items())
+    except (TypeError, ValueError):
+        return [("?", repr(d))]
 
 
 def feq(a, b, tol=1e-6):
@@ -96,13 +131,36 @@ def atom_eq(x, y):
         ((x[4] is None) == (y[4] is None)) and (x[4] is None or feq(x[4], y[4], 1e-3))
 
 
-def sig_eq(a, b):
-    """Same content (coordinates to 1e-6, charges to 1e-3)."""
+EXTRA_ATOM = ("atypes", "geoms", "fcharges", "aattrib")
+
+
+def atom_extra(s, i):
+    """What the attribute sections and the per-record conversion left on atom #i besides its record proper."""
+    return tuple(s[k][i] if k in s and i < len(s[k]) else None for k in EXTRA_ATOM)
+
+
+def core_eq(a, b):
+    """Same records (coordinates to 1e-6, charges to 1e-3)."""
     if a["n_atoms"] != b["n_atoms"] or a["n_bonds"] != b["n_bonds"] or a["bonds"] != b["bonds"]:
         return False
     if len(a["elems"]) != len(b["elems"]):
         return False
     return all(atom_eq(atom_rec(a, i), atom_rec(b, i)) for i in range(len(a["elems"])))
+
+
+def extras_diff(a, b):
+    """Names of the fields outside the records proper in which two molecules of the same shape differ: atom types / geometries
+    (the type column), formal charges and attributes (UNITY sections).  Sigs made without these fields compare equal."""
+    out = []
+    for k in EXTRA_ATOM + ("battrib",):
+        if k in a and k in b and a[k] != b[k]:
+            out.append(k)
+    return out
+
+
+def sig_eq(a, b):
+    """Same content: records, and what the attribute sections put on atoms and bonds."""
+    return core_eq(a, b) and not extras_diff(a, b)
 
 
 def sig_consistent(s):
@@ -118,8 +176,10 @@ def sig_diff_records(a, b):
     if a["n_atoms"] != b["n_atoms"] or a["n_bonds"] != b["n_bonds"] or len(a["elems"]) != len(b["elems"]) \
             or len(a["bonds"]) != len(b["bonds"]):
         return None
-    da = sum(1 for i in range(len(a["elems"])) if not atom_eq(atom_rec(a, i), atom_rec(b, i)))
-    db = sum(1 for x, y in zip(a["bonds"], b["bonds"]) if x != y)
+    da = sum(1 for i in range(len(a["elems"])) if not atom_eq(atom_rec(a, i), atom_rec(b, i)) or atom_extra(a, i) != atom_extra(b, i))
+    ba, bb = a.get("battrib"), b.get("battrib")
+    db = sum(1 for k, (x, y) in enumerate(zip(a["bonds"], b["bonds"]))
+             if x != y or (ba is not None and bb is not None and k < len(ba) and k < len(bb) and ba[k] != bb[k]))
     return da, db
 
 
@@ -641,6 +701,12 @@ def mol2_roles(lines):
             for j in range(i + 1, min(i + 1 + k, n)):
                 roles[j] = "atom" if sec == "ATOM" else "bond"
             i += 1 + k
+        elif sec in ("UNITY_ATOM_ATTR", "UNITY_BOND_ATTR"):
+            j = i + 1
+            while j < n and not lines[j].strip().startswith("@<TRIPOS>"):
+                roles[j] = "uattr"           # group headers `<id> <n_attr>` and attribute lines `<name> <value>`
+                j += 1
+            i = j
         else:
             i += 1
     return roles
@@ -735,6 +801,341 @@ def shifted_records(s, o):
         if xb == yb[:i + 1] + yb[i:-1] and xb != yb:
             return ("bond", i)
     return None
+
+
+# ------------------------------------------------------------------ what a text SAYS (independent reference)
+# The oracle used to take the implementation's own reading of the undamaged text as "the undamaged file".  A conversion that
+# carries state from one record to the next (a cache keyed by the record SIZE, a dictionary shared between records) then reads
+# the undamaged text wrongly in exactly the same way as every damaged variant, and nothing differs.  The references below read a
+# text by the documented grammar only (count-driven sections, `<id> <n_attr>` + exactly n_attr `<name> <value>` lines in UNITY
+# sections), one record at a time and with no state shared between records; the vocabularies (Element.get, Atom.set_mol2_type,
+# MOL2_BOND_TYPE_MAP) are evaluated on a FRESH object per token.  None = the grammar refuses the text.
+def _atype_of(tok):
+    from molli.chem import Atom
+    a = Atom()
+    a.set_mol2_type(tok)
+    return int(a.element.z), a.atype.name, a.geom.name
+
+
+def xyz_reference(lines):
+    from molli.chem import Element
+    out, i = [], 0
+    try:
+        while i < len(lines):
+            n = int(lines[i])
+            if i + 1 >= len(lines):
+                return None
+            n = max(n, 0)
+            recs = lines[i + 2:i + 2 + n]
+            if len(recs) != n:
+                return None
+            m = {"n_atoms": n, "n_bonds": 0, "elems": [], "dummy": [], "coords": [], "bonds": [], "atypes": [],
+                 "fcharges": [0] * n, "aattrib": [[] for _ in range(n)], "battrib": []}
+            for l in recs:
+                sym, x, y, z = l.split()
+                m["coords"].append((float(x), float(y), float(z)))
+                if sym == "*":
+                    m["elems"].append(0); m["dummy"].append(True); m["atypes"].append("Dummy")
+                else:
+                    m["elems"].append(int(Element.get(sym).z)); m["dummy"].append(False); m["atypes"].append("Regular")
+            out.append(m)
+            i += 2 + n
+    except Exception:
+        return None
+    return out
+
+
+def _unity_groups(body, n_items):
+    """[(index, {name: value})] of the lines of one UNITY section, or None when they are not `<id> <n>` + n `<name> <value>`."""
+    out, i = [], 0
+    while i < len(body):
+        t = body[i].split()
+        if len(t) != 2:
+            return None
+        idx, k = int(t[0]), int(t[1])
+        k = max(k, 0)
+        if k and not (-n_items <= idx - 1 < n_items):
+            return None                      # records[idx - 1] (a group without attributes never touches its record)
+        idx = (idx - 1) % n_items + 1 if n_items else idx
+        attrs = []
+        for l in body[i + 1:i + 1 + k]:
+            u = l.split()
+            if len(u) != 2 or l.strip().startswith("@<TRIPOS>"):
+                return None
+            attrs.append((u[0], u[1]))
+        if len(attrs) != k:
+            return None
+        out.append((idx, attrs))
+        i += 1 + k
+    return out
+
+
+def mol2_reference(lines):
+    """Per molecule of a mol2 text in which every molecule has its MOLECULE header, then (in any order, among unsupported
+    blocks) one ATOM and one BOND section with the declared numbers of records, and UNITY sections after the records they
+    speak about."""
+    from molli.chem.bond import MOL2_BOND_TYPE_MAP
+    roles, owner = mol2_roles(lines), mol2_block_of_line(lines)
+    tags = [i for i, l in enumerate(lines) if l.strip().startswith("@<TRIPOS>")]
+    if not tags or lines[tags[0]].strip() != "@<TRIPOS>MOLECULE":
+        return None
+    mols = []
+    try:
+        for ti, i in enumerate(tags):
+            sec = lines[i].strip()[len("@<TRIPOS>"):]
+            end = tags[ti + 1] if ti + 1 < len(tags) else len(lines)
+            body = [l for l in lines[i + 1:end]]
+            if sec == "MOLECULE":
+                hdr = lines[i + 1:i + 5]
+                if len(hdr) < 4 or i + 5 > len(lines):
+                    return None
+                c = [int(x) for x in hdr[1].split()]
+                cur = {"name": hdr[0].strip(), "na": c[0], "nb": c[1] if len(c) > 1 else None, "chrg": hdr[3].strip(),
+                       "atoms": None, "bonds": None, "aattr": [], "battr": []}
+                mols.append(cur)
+            elif sec in ("ATOM", "BOND"):
+                key = "atoms" if sec == "ATOM" else "bonds"
+                if cur[key] is not None:
+                    return None
+                k = max(cur["na"] if sec == "ATOM" else (cur["nb"] or 0), 0)
+                recs = [l.split() for l in lines[i + 1:i + 1 + k]]
+                if len(recs) != k or i + 1 + k > end:
+                    return None
+                rest = [l for l in lines[i + 1 + k:end] if l.strip() and not l.strip().startswith("#")]
+                if rest:
+                    return None              # a surplus line after a complete section
+                cur[key] = recs
+            elif sec in ("UNITY_ATOM_ATTR", "UNITY_BOND_ATTR"):
+                key, akey = ("atoms", "aattr") if sec == "UNITY_ATOM_ATTR" else ("bonds", "battr")
+                if ti + 1 >= len(tags):
+                    return None              # the section must be closed by another TRIPOS record
+                g = _unity_groups([l.strip() for l in body], len(cur[key] or []))
+                if g is None or (cur[key] is None and any(a for _, a in g)):
+                    return None
+                cur[akey] += g
+        out = []
+        for c in mols:
+            if c["nb"] is None or c["na"] < 0:
+                return None
+            for key, cnt in (("atoms", c["na"]), ("bonds", c["nb"])):
+                if c[key] is None:               # a section that declares no records may be absent
+                    if cnt > 0:
+                        return None
+                    c[key] = []
+            n = c["na"]
+            m = {"name": c["name"], "n_atoms": n, "n_bonds": c["nb"], "elems": [], "dummy": [], "labels": [], "coords": [],
+                 "atypes": [], "geoms": [], "bonds": [], "fcharges": [0] * n, "aattrib": [{} for _ in range(n)],
+                 "battrib": [{} for _ in range(len(c["bonds"]))],
+                 "charges": None if c["chrg"] == "NO_CHARGES" else []}
+            for t in c["atoms"]:
+                if len(t) < 6:
+                    return None
+                z, at, ge = _atype_of(t[5])
+                m["elems"].append(z); m["atypes"].append(at); m["geoms"].append(ge); m["dummy"].append(at == "Dummy")
+                m["labels"].append(t[1]); m["coords"].append(tuple(float(x) for x in t[2:5]))
+                if m["charges"] is not None:     # (a record without the charge column: nothing to say about partial charges)
+                    m["charges"] = m["charges"] + [float(t[8])] if len(t) > 8 else None
+            for t in c["bonds"]:
+                if len(t) < 4:
+                    return None
+                i1, i2 = int(t[1]) - 1, int(t[2]) - 1
+                if not (0 <= i1 < n and 0 <= i2 < n):
+                    return None
+                m["bonds"].append((i1, i2, MOL2_BOND_TYPE_MAP[t[3]].name))
+            for idx, attrs in c["aattr"]:
+                for k, v in attrs:
+                    m["aattrib"][idx - 1][k] = v
+            for idx, attrs in c["battr"]:
+                for k, v in attrs:
+                    m["battrib"][idx - 1][k] = v
+            for i, d in enumerate(m["aattrib"]):
+                ch = d.pop("charge", None)
+                if ch:
+                    m["fcharges"][i] = int(ch)
+            m["aattrib"] = [sorted(d.items()) for d in m["aattrib"]]
+            m["battrib"] = [sorted(d.items()) for d in m["battrib"]]
+            out.append(m)
+    except Exception:
+        return None
+    return out
+
+
+def reference(fmt, lines):
+    return xyz_reference(lines) if fmt == "xyz" else mol2_reference(lines)
+
+
+def ref_mismatch(s, r):
+    """First field in which a returned molecule differs from what its record says (None: it is what the text says).  Fields
+    the reference does not speak about (labels of xyz atoms, partial charges of a class that has none) are not compared."""
+    if s["n_atoms"] != r["n_atoms"] or len(s["elems"]) != r["n_atoms"]:
+        return "n_atoms"
+    if s["n_bonds"] != r["n_bonds"] or len(s["bonds"]) != len(r["bonds"]):
+        return "n_bonds"
+    for k in ("elems", "dummy", "atypes", "geoms", "labels", "bonds", "fcharges", "aattrib", "battrib"):
+        if k in r and k in s and [_plain(x) for x in s[k]] != [_plain(x) for x in r[k]]:
+            return k
+    if "name" in r and "name" in s and s["name"] != r["name"]:
+        return "name"
+    if not all(feq(p, q) for a, b in zip(s["coords"], r["coords"]) for p, q in zip(a, b)):
+        return "coords"
+    if r.get("charges") is not None and s.get("charges") is not None and \
+            not (len(s["charges"]) == len(r["charges"]) and all(feq(p, q, 1e-3) for p, q in zip(s["charges"], r["charges"]))):
+        return "charges"
+    return None
+
+
+def _plain(x):
+    return [_plain(y) for y in x] if isinstance(x, (list, tuple)) else x
+
+
+def says(fmt, lines, ret):
+    """True when the molecules `ret` are exactly what the text `lines` says under the reference grammar."""
+    ref = reference(fmt, lines)
+    return ref is not None and len(ret) <= len(ref) and all(ref_mismatch(s, r) is None for s, r in zip(ret, ref))
+
+
+def record_texts(fmt, lines):
+    """The text of every record of a well-formed multi-record text, on its own."""
+    owner = (xyz_block_of_line if fmt == "xyz" else mol2_block_of_line)(lines)
+    nb = max(owner.values()) + 1 if owner else 0
+    return [[l for i, l in enumerate(lines) if owner.get(i) == b] for b in range(nb)]
+
+
+# ------------------------------------------------------------------ every way of reading a text
+def entry_points(ml, fmt, scratch):
+    """[(name, 'all' | 'first', fn(text) -> list of sigs)]: the class-level readers of the three classes (string, path, open
+    stream, generator; all records / the first one) and the top-level ones.  #0 is the one the property names."""
+    from molli.chem import Molecule, Structure, CartesianGeometry
+    path = os.path.join(scratch, "t." + fmt)
+
+    def put(text):
+        with open(path, "w") as f:
+            f.write(text)
+        return path
+
+    sig = lambda ms: [mol_sig(m) for m in ms]
+    eps = []
+    for cls in ([Molecule, Structure, CartesianGeometry] if fmt == "xyz" else [Molecule, Structure]):
+        n = cls.__name__
+        la, ls_, l1, ls1 = (getattr(cls, f"{k}_{fmt}") for k in ("load_all", "loads_all", "load", "loads"))
+        yf = getattr(cls, "yield_from_" + fmt)
+        eps += [
+            (f"{n}.loads_all_{fmt}", "all", lambda t, f=ls_: sig(f(t))),
+            (f"{n}.load_all_{fmt}(path)", "all", lambda t, f=la: sig(f(put(t)))),
+            (f"{n}.load_all_{fmt}(stream)", "all", lambda t, f=la: sig(f(io.StringIO(t)))),
+            (f"{n}.yield_from_{fmt}(stream)", "all", lambda t, f=yf: sig(list(f(io.StringIO(t))))),
+            (f"{n}.loads_{fmt}", "first", lambda t, f=ls1: sig([f(t)])),
+            (f"{n}.load_{fmt}(path)", "first", lambda t, f=l1: sig([f(put(t))])),
+        ]
+        if fmt == "mol2":
+            eps.append((f"{n}.yield_from_mol2(str)", "all", lambda t, f=yf: sig(list(f(t)))))
+    eps += [
+        (f"ml.loads_all({fmt})", "all", lambda t: sig(ml.loads_all(t, fmt))),
+        (f"ml.load_all({fmt})", "all", lambda t: sig(ml.load_all(put(t), fmt))),
+        (f"ml.loads({fmt})", "first", lambda t: sig([ml.loads(t, fmt)])),
+        (f"ml.load({fmt})", "first", lambda t: sig([ml.load(put(t), fmt)])),
+    ]
+    return eps
+
+
+def proj_eq(s, o):
+    """Same content, for readers of different classes (a class without partial charges / bonds has none to compare)."""
+    if s.get("charges") is None or o.get("charges") is None:
+        s, o = dict(s, charges=None), dict(o, charges=None)
+    return sig_eq(s, o)
+
+
+# ------------------------------------------------------------------ libraries: records of one size, different content
+def gen_library_bases(ml, rng, fmt, thorough):
+    """(name, text): multi-record texts in which CONSECUTIVE records have the same atom (and bond) count but are different
+    molecules: other elements in the same places, the same atoms in another order, an attachment point `*` after a record
+    without one, other atom types of the same element / other bond types, attributes on one record and none on the next --
+    followed by records of another size and then of the first size again.  A conversion that reuses what it worked out for
+    the previous record whenever the sizes agree reads every one of them wrongly; all counts are met."""
+    from molli.chem import Molecule, Atom, BondType
+    out = []
+    for b in range(2 if not thorough else 10):
+        n = rng.randint(3, 5)
+        k = rng.randint(4, 6)
+        first = [rng.choice(["C", "N", "O", "S", "Cl", "B", "F", "H"]) for _ in range(n)]
+        recs, prev = [], first
+        for c in range(k):
+            how = ["same", "elements", "order", "star", "one"][c % 5] if c else "first"
+            e = list(prev)
+            if how == "elements":
+                e = [rng.choice([x for x in ["C", "N", "O", "S", "Cl", "B", "F", "H"] if x != y]) for y in e]
+            elif how == "order":
+                e = e[1:] + e[:1]
+                if e == prev:
+                    e[0] = "P" if e[0] != "P" else "Si"
+            elif how == "one":
+                j = rng.randrange(n)
+                e[j] = "Br" if e[j] != "Br" else "I"
+            recs.append((how, e))
+            prev = e
+        small = [rng.choice(["O", "S", "N"]), "H", "H"][:max(2, n - 2)]
+        recs = recs[:k - 1] + [("smaller", small), ("smaller-elements", ["Se"] + small[1:])] + recs[k - 1:]
+        texts = []
+        for c, (how, e) in enumerate(recs):
+            m = Molecule(n_atoms=0, name=f"lib{c}-{how}")
+            for i, sym in enumerate(e):
+                m.add_atom(Atom(sym), [round(rng.uniform(-9, 9), 4) for _ in range(3)])
+            if fmt == "mol2":
+                for i in range(len(e) - 1):          # the same bond COUNT in every record of a size; types and ends vary
+                    a1, a2 = (m.atoms[i], m.atoms[i + 1]) if (i + c) % 3 else (m.atoms[i + 1], m.atoms[i])
+                    m.connect(a1, a2, btype=[BondType.Single, BondType.Double, BondType.Aromatic, BondType.Triple][(i + c) % 4])
+            t = m.dumps_xyz() if fmt == "xyz" else m.dumps_mol2()
+            if fmt == "xyz" and how == "star":
+                ls = to_lines(t)
+                j = 2 + rng.randrange(len(e))
+                ls[j] = ls[j].replace(ls[j].split()[0], "*", 1)
+                t = "\n".join(ls) + "\n"
+            if fmt == "mol2":
+                ls = to_lines(t)
+                ia = ls.index("@<TRIPOS>ATOM")
+                if how in ("same", "one", "smaller-elements"):   # another atom type of the same element / a dummy type
+                    for j in range(ia + 1, ia + 1 + len(e)):
+                        tk = ls[j].split()
+                        alt = {"C": "C.2", "N": "N.pl3", "O": "O.2", "S": "S.o2"}.get(tk[5].split(".")[0])
+                        if alt and alt != tk[5] and (j + c) % 2 == 0:
+                            ls[j] = " ".join(tk[:5] + [alt] + tk[6:])
+                if how in ("star", "elements", "smaller"):       # attributes on this record, none on the next one
+                    ib = ls.index("@<TRIPOS>BOND")
+                    grp = [f"{1 + (c % len(e))} 1", f"charge {1 if c % 2 else -1}", f"{len(e)} 2", "tag x9", f"color c{c}"]
+                    ls = ls[:ib] + ["@<TRIPOS>UNITY_ATOM_ATTR"] + grp + ls[ib:]
+                    ls += ["@<TRIPOS>UNITY_BOND_ATTR", "1 1", f"order {c}", "@<TRIPOS>SUBSTRUCTURE", "1 UNL1 1"]
+                t = "\n".join(ls) + "\n"
+            texts.append(t)
+        out.append((f"gen-lib-{fmt}-{b}", "".join(texts)))
+    return out
+
+
+# ------------------------------------------------------------------ damage inside sections whose length a count declares
+def plan_unity_damages(lines):
+    """Deterministic, for EVERY line of every UNITY_ATOM_ATTR / UNITY_BOND_ATTR section (group headers `<id> <n_attr>` and
+    attribute lines `<name> <value>`): the line deleted, duplicated; a header with its declared count one more / one less / the
+    count dropped / another record id; an attribute line without its value, with a surplus token, with another value.  The
+    strict alternation "header, then exactly n_attr attribute lines" is the only thing that notices a lost line here: the
+    ATOM / BOND counts of the molecule stay met."""
+    roles = mol2_roles(lines)
+    ds = []
+    for i in sorted(i for i, r in roles.items() if r == "uattr"):
+        ds += [(("del", i), "unity-del"), (("dup", i), "unity-dup")]
+        t = lines[i].split()
+        if len(t) == 2 and all(x.lstrip("+-").isdigit() for x in t):
+            idx, k = int(t[0]), int(t[1])
+            ds += [(("repl", i, f"{idx} {k + 1}"), "unity-count"), (("repl", i, f"{idx} {max(k - 1, 0)}"), "unity-count"),
+                   (("repl", i, f"{idx}"), "unity-count"), (("repl", i, f"{idx + 1} {k}"), "unity-id"),
+                   (("repl", i, f"{max(idx - 1, 1)} {k}"), "unity-id")]
+        elif len(t) == 2:
+            ds += [(("repl", i, t[0]), "unity-tok"), (("repl", i, f"{t[0]} {t[1]} x"), "unity-tok"),
+                   (("repl", i, f"{t[0]} {t[1]}7"), "unity-tok")]
+    seen, out = set(), []
+    for d, k in ds:
+        if d not in seen and not (d[0] == "repl" and d[2] == lines[d[1]].strip()):
+            seen.add(d)
+            out.append((d, k))
+    return out
 
 
 # ------------------------------------------------------------------ damage plans
@@ -896,6 +1297,16 @@ def plan_junk_damages(fmt, lines, thorough):
 
 
 # ------------------------------------------------------------------ the oracle
+def cut_limit(fmt, lines, d, ret, tag, text):
+    """A text cut inside its last record and accepted with only that record changed: the format limit when the shortened line
+    is a complete record by itself and the molecules are what the shortened text SAYS (`3.456700` -> `3.4`, `Cl` -> `C`);
+    otherwise a shortened column was made into something it does not say (`du` -> `d` read as some bond type)."""
+    if says(fmt, to_lines(damaged_text(lines, d)), ret):
+        return (f"C10:{fmt}:last-numeric-token-truncated", text)
+    return (f"{tag}:cut-record-accepted-not-as-written",
+            text + f"; the shortened line {lines[d[1]][:d[2]]!r} is not a record that says what was returned")
+
+
 def judge(fmt, lines, owner, orig, d, kind, outcome):
     """Property C10 judged on the implementation alone. Returns None or (signature, text)."""
     tag = f"C10:{fmt}:{kind.split('-')[0] if kind.startswith('tok-') else kind}"
@@ -913,6 +1324,29 @@ def judge(fmt, lines, owner, orig, d, kind, outcome):
     if len(ret) > len(orig):
         return (f"{tag}:extra-molecule", f"{len(ret)} molecules returned, the undamaged text has {len(orig)} ({d})")
     hit = owner.get(d[1]) if d[0] in ("repl", "cut") and len(d) > 1 else None
+    if fmt == "mol2" and len(d) > 1 and len(ret) <= len(orig) and all(core_eq(s, o) for s, o in zip(ret, orig)) \
+            and not all(sig_eq(s, o) for s, o in zip(ret, orig)):
+        # the text is accepted with all the RECORDS of the undamaged molecules, but what its optional sections put on the atoms
+        # and bonds (UNITY_*_ATTR: formal charges, attributes) is not what the undamaged file says
+        j = next(k for k, (x, o) in enumerate(zip(ret, orig)) if not sig_eq(x, o))
+        ex = "+".join(extras_diff(ret[j], orig[j]))
+        in_unity = roles_of(fmt, lines).get(d[1]) == "uattr"
+        what = (f"line {d[1]} ({lines[d[1]] if d[1] < len(lines) else ''!r}) damaged by {d}: the text is accepted, every ATOM / BOND count is met, "
+                f"but molecule #{j} differs from the undamaged one in {ex}: formal charges "
+                f"{[(i, c) for i, c in enumerate(ret[j]['fcharges']) if c]} vs {[(i, c) for i, c in enumerate(orig[j]['fcharges']) if c]}, "
+                f"atom attributes {[(i, a) for i, a in enumerate(ret[j]['aattrib']) if a]} vs "
+                f"{[(i, a) for i, a in enumerate(orig[j]['aattrib']) if a]}")
+        if says(fmt, to_lines(damaged_text(lines, d)), ret):
+            # the damaged text is itself well-formed (every UNITY section it still has is `<id> <n>` followed by exactly n
+            # `<name> <value>` lines and closed by a TRIPOS record; a section cut off as a whole, or turned into an unknown block
+            # by a damaged tag, is simply not there) and the molecules are what IT says: no reader can tell
+            if d[0] == "repl":
+                return None              # a corrupted token that is still a valid token
+            return ("C10:mol2:optional-section:damaged-text-still-well-formed", what + " -- the damaged text is still well-formed "
+                    "and says exactly this (format limit)")
+        if in_unity:
+            return (f"{tag}:unity-damage-accepted", what + " -- and the damaged section is NOT `<id> <n_attr>` followed by "
+                    "exactly n_attr `<name> <value>` lines")
     if d[0] == "repl" and len(ret) < len(orig) and hit is not None:
         # a corrupted record tag / count can make a WHOLE molecule disappear into an unsupported section (no reader can
         # tell it from a legitimate unknown TRIPOS block): the molecules that are returned must still be complete and
@@ -932,9 +1366,10 @@ def judge(fmt, lines, owner, orig, d, kind, outcome):
                     f"({sr[1]} of {sr[2]} mandatory columns) is accepted and molecule #{j} differs from the undamaged one "
                     f"(record diff {diff}; damage {d})")
         if d[0] == "cut" and d[1] == len(lines) - 1 and j == len(orig) - 1 and diff in ((1, 0), (0, 1)):
-            # the cut fell inside the last token of the last record: no reader can notice (format limit)
-            return (f"C10:{fmt}:last-numeric-token-truncated",
-                    f"cut at byte {d[2]} of the last line {lines[-1]!r} is accepted; only the last record differs")
+            # the cut fell inside the last token of the last record: no reader can notice (format limit) -- as long as what is
+            # left IS a complete record and the molecule is what that record says
+            return cut_limit(fmt, lines, d, ret, tag,
+                             f"cut at byte {d[2]} of the last line {lines[-1]!r} is accepted; only the last record differs")
         if d[0] == "repl" and hit == j and diff in ((1, 0), (0, 1)):
             # a corrupted token that is still a valid token changes exactly its own record -- to what the line now SAYS; a line
             # that is no record any more (a column float() / int() refuse, a missing or surplus column), or a value other than
@@ -946,8 +1381,7 @@ def judge(fmt, lines, owner, orig, d, kind, outcome):
                         f"undamaged one: {bad[1]} (record diff {diff})")
             continue
         if d[0] == "cut" and d[1] != len(lines) - 1 and hit == j and diff in ((1, 0), (0, 1)) and j == len(ret) - 1:
-            return (f"C10:{fmt}:last-numeric-token-truncated",
-                    f"cut at byte {d[2]} of line {d[1]} is accepted; only that record differs")
+            return cut_limit(fmt, lines, d, ret, tag, f"cut at byte {d[2]} of line {d[1]} is accepted; only that record differs")
         sh = shifted_records(s, orig[j]) if d[0] == "dup" else None
         if sh is not None:
             # the text has one line MORE than the undamaged one and was accepted: the surplus line was taken for a record and the
@@ -956,6 +1390,10 @@ def judge(fmt, lines, owner, orig, d, kind, outcome):
             return (f"{tag}:surplus-line-accepted:{sh[0]}",
                     f"line {d[1]} ({role or 'other'} line {lines[d[1]]!r}) duplicated: the text is accepted, molecule #{j} has the "
                     f"declared counts but {sh[0]} record #{sh[1]} twice and its last {sh[0]} record is lost (record diff {diff})")
+        if core_eq(s, orig[j]):
+            return (f"{tag}:attributes-differ:" + "+".join(extras_diff(s, orig[j])),
+                    f"molecule #{j} returned after damage {d} has the records of the undamaged one but differs in "
+                    f"{extras_diff(s, orig[j])} (atom types / formal charges / attributes of atoms or bonds)")
         oth = records_of_another(s, j, orig)
         if oth is not None:
             return (f"{tag}:records-of-another-molecule",
@@ -996,6 +1434,98 @@ def header_for(fmt, bases, table, atypes=None, btypes=None):
     return h
 
 
+# limits of the FORMAT (the damaged text is itself a well-formed text that says something else): about the text, not the reader
+FORMAT_LIMITS = {"C10:xyz:last-numeric-token-truncated", "C10:mol2:last-numeric-token-truncated",
+                 "C10:mol2:optional-section:damaged-text-still-well-formed"}
+
+
+def entry_sig(fmt, sig):
+    return sig if sig in FORMAT_LIMITS else f"C10:{fmt}:entry-point:" + sig.split(":", 2)[2]
+
+
+def alone_text(rl):
+    return "\n".join(rl) + "\n"
+
+
+def judge_base(fmt, lines, orig):
+    """The undamaged text against what it SAYS: (signature, text) or None; and whether there was a reference."""
+    ref = reference(fmt, lines)
+    if ref is None:
+        return None, False
+    if len(ref) != len(orig):
+        return (f"C10:{fmt}:none:not-as-written:n_molecules", f"{len(orig)} molecules returned, the text holds {len(ref)} records"), True
+    for j, (s, r) in enumerate(zip(orig, ref)):
+        f = ref_mismatch(s, r)
+        if f:
+            return (f"C10:{fmt}:none:not-as-written:{f}",
+                    f"molecule #{j} of the UNDAMAGED text is not what its own record says: {f} = {s.get(f)!r}, the record says "
+                    f"{r.get(f)!r} (all declared counts are met)"), True
+    return None, True
+
+
+def judge_alone(fmt, j, alone, whole):
+    """Record #j read on its own (`alone`: outcome) against molecule #j of the whole text."""
+    if alone[0] != "ok" or len(alone[1]) != 1:
+        return None
+    a = alone[1][0]
+    if sig_eq(a, whole) and a.get("name") == whole.get("name"):
+        return None
+    ex = extras_diff(a, whole) if core_eq(a, whole) else ["records"]
+    if a.get("name") != whole.get("name"):
+        ex = ex + ["name"]
+    return (f"C10:{fmt}:none:record-depends-on-its-predecessors",
+            f"record #{j} read as a file of its own and read as part of the multi-record text give different molecules "
+            f"({', '.join(ex)}): elements {a['elems']} vs {whole['elems']}, atom types {a['atypes']} vs {whole['atypes']}, "
+            f"formal charges {a['fcharges']} vs {whole['fcharges']}")
+
+
+def judge_entry(kind, got, orig):
+    """An undamaged text through another entry point (`got`: outcome) against the molecules of the primary one."""
+    if got[0] != "ok":
+        return None
+    exp = orig if kind == "all" else orig[:1]
+    if len(got[1]) == len(exp) and all(proj_eq(s, o) and s.get("name") == o.get("name") for s, o in zip(got[1], exp)):
+        return None
+    return ("undamaged-text-read-differently",
+            f"{len(got[1])} molecule(s), elements {[s['elems'] for s in got[1]][:4]}, names {[s.get('name') for s in got[1]][:4]}; "
+            f"Molecule.loads_all gives {len(exp)}: {[o['elems'] for o in exp][:4]}, {[o.get('name') for o in exp][:4]}")
+
+
+def check_base(ml, rep, fmt, bname, lines, orig, eps):
+    """Checks on the UNDAMAGED text: it reads as what it says; each record reads the same alone and inside the text; every
+    entry point reads it the same.  Returns {entry point index: its reading of the undamaged text}."""
+    text = damaged_text(lines, ("none",))
+    v, had = judge_base(fmt, lines, orig)
+    rep.count(f"{fmt}:base:" + ("compared-with-what-the-text-says" if had else "no-reference-reading"))
+    if v:
+        rep.violate(v[0], f"{bname}: {v[1]}", {"fmt": fmt, "lines": lines, "damage": ["none"], "kind": "as-written"})
+    recs = record_texts(fmt, lines)
+    if len(recs) > 1 and len(recs) == len(orig):
+        sizes = [(o["n_atoms"], o["n_bonds"]) for o in orig]
+        if any(sizes[j] == sizes[j - 1] and not sig_eq(orig[j], orig[j - 1]) for j in range(1, len(orig))):
+            rep.count(f"{fmt}:base:consecutive-records-equal-size-different-content")
+        for j, rl in enumerate(recs):
+            o = observe(ml, fmt, alone_text(rl))
+            rep.count(f"{fmt}:record-read-alone" + ("" if o[0] == "ok" else ":rejected"))
+            v = judge_alone(fmt, j, o, orig[j])
+            if v:
+                rep.violate(v[0], f"{bname}: {v[1]}", {"fmt": fmt, "lines": lines, "damage": ["none"], "kind": "alone", "record": j})
+    ep_orig = {}
+    for k, (name, kind, fn) in enumerate(eps):
+        if k == 0:
+            continue
+        o = run_limited(fn, text)
+        rep.count(f"{fmt}:entry:{name}" + ("" if o[0] == "ok" else ":undamaged-rejected"))
+        if o[0] != "ok":
+            continue
+        ep_orig[k] = o[1]
+        v = judge_entry(kind, o, orig)
+        if v:
+            rep.violate(f"C10:{fmt}:entry-point:{v[0]}", f"{bname} read through {name}: {v[1]}",
+                        {"fmt": fmt, "lines": lines, "damage": ["none"], "kind": "entry-base", "entry": name})
+    return ep_orig
+
+
 # ------------------------------------------------------------------ main
 def collect(ctx, rep, ml, fmt):
     """Generate the damaged texts of one format, run the implementation, judge, and return the Coq cases."""
@@ -1011,6 +1541,8 @@ def collect(ctx, rep, ml, fmt):
     # texts whose molecules declare equal counts; own random stream, so that the families above keep theirs
     import random
     bases += gen_equal_count_bases(ml, random.Random(ctx.seed * 7919 + (1010 if fmt == "xyz" else 1011)), fmt, thorough)
+    bases += gen_library_bases(ml, random.Random(ctx.seed * 7919 + (1020 if fmt == "xyz" else 1021)), fmt, thorough)
+    eps = entry_points(ml, fmt, ctx.sub("c10_entry_" + fmt))
     sect = {}
     if fmt == "mol2":        # varied section layouts (last, own random stream: the families above keep their texts and damages)
         for name, text, plain, feats in gen_section_bases(ml, random.Random(ctx.seed * 7919 + 1012), thorough):
@@ -1056,14 +1588,18 @@ def collect(ctx, rep, ml, fmt):
             # unsupported blocks, comment lines and the order of the sections carry no molecule content: the text reads as
             # the molecules of the same records in the layout molli writes
             op = observe(ml, fmt, sect[bname][0])
-            if op[0] == "ok" and not (len(op[1]) == len(orig) and all(sig_eq(a, b) for a, b in zip(orig, op[1]))):
+            same = core_eq if any(f.startswith("unity-") for f in sect[bname][1]) else sig_eq     # UNITY sections do carry content
+            if op[0] == "ok" and not (len(op[1]) == len(orig) and all(same(a, b) for a, b in zip(orig, op[1]))):
                 rep.violate("C10:mol2:layout:unsupported-sections-change-content",
                             f"{bname}: the text with extra sections ({', '.join(sect[bname][1])}) is accepted but its molecules "
                             "differ from those of the same records without the extra sections",
                             {"fmt": fmt, "lines": lines, "plain": to_lines(sect[bname][0]), "damage": ["none"], "kind": "layout"})
-        eqc = bname.startswith("gen-eqc-")
+        ep_orig = check_base(ml, rep, fmt, bname, lines, orig, eps)
+        eqc = bname.startswith("gen-eqc-") or bname.startswith("gen-lib-")
         if eqc:
             rep.count(f"{fmt}:base:equal-counts")
+        if bname.startswith("gen-lib-"):
+            rep.count(f"{fmt}:base:library-equal-size-different-content")
         if len(orig) > 1 and len({(o["n_atoms"], o["n_bonds"]) for o in orig}) < len(orig):
             rep.count(f"{fmt}:base:some-molecules-with-equal-counts")
         plan = plan_damages(rng, lines, thorough, budget, fmt=fmt,
@@ -1076,6 +1612,10 @@ def collect(ctx, rep, ml, fmt):
             junk = plan_junk_damages(fmt, lines, thorough)
             in_coq |= set(range(len(plan), len(plan) + len(junk)))
             plan += junk
+        if fmt == "mol2":                        # every line of every UNITY section, whatever the budgets above were
+            ud = plan_unity_damages(lines)
+            in_coq |= set(range(len(plan), len(plan) + len(ud)))
+            plan += ud
         for di, (d, kind) in enumerate(plan):
             if hangs >= MAX_HANGS:
                 rep.count(f"{fmt}:not-run-after-{MAX_HANGS}-hangs")
@@ -1090,13 +1630,30 @@ def collect(ctx, rep, ml, fmt):
             rep.case(key=key, sample={"fmt": fmt, "base": bname, "damage": list(d), "outcome": out[0] if out[0] != "err" else out[1]})
             if v:
                 rep.violate(v[0], v[1], {"fmt": fmt, "lines": lines, "damage": list(d), "kind": kind})
+            elif out[0] != "hang" and d[0] != "none":
+                # the same damaged text through two more of the entry points (all of them in turn over the plan)
+                for r in range(2):
+                    k = 1 + (2 * di + r) % (len(eps) - 1)
+                    if ep_orig.get(k) is None or (eps[k][1] == "first" and d[0] != "trunc"):
+                        # (a reader of the FIRST record stops reading after it: what follows the record is not its input)
+                        continue
+                    eo = run_limited(eps[k][2], dt)
+                    hangs += eo[0] == "hang"
+                    rep.count(f"{fmt}:entry:{eps[k][0]}")
+                    v2 = judge(fmt, lines, owner, ep_orig[k], d, kind, eo)
+                    if v2:
+                        rep.violate(entry_sig(fmt, v2[0]), f"read through {eps[k][0]}: {v2[1]}",
+                                    {"fmt": fmt, "lines": lines, "damage": list(d), "kind": kind, "entry": eps[k][0]})
             if out[0] == "hang" or (di not in in_coq and not v):
                 continue
             rep.count(f"{fmt}:compared-in-coq")
             cases.append(f"({cq_nat(bi)}, {damage_term(d)}, {obs_term(out, table)})")
             meta.append((bname, d, kind, out[0]))
             if fmt == "mol2":
-                for l in (lines if d[0] != "repl" else [d[2]]):
+                # the vocabulary tables of the shard hold every token in play: those of the text, of a replacing line, and the
+                # shortened tokens a cut leaves behind (`Du.Cl` cut to `Du` is a type of its own)
+                part = [lines[d[1]][:d[2]]] if d[0] == "cut" and d[1] < len(lines) else []
+                for l in (lines + part if d[0] != "repl" else [d[2]]):
                     tokens.update(t for t in l.split() if not floatlike(t))
     return base_lines, table, cases, meta, tokens
 
@@ -1111,8 +1668,13 @@ def run(ctx, rep):
                 "each token of the last atom / bond record dropped; mol2 texts in other SECTION LAYOUTS than the one molli writes "
                 "(unsupported TRIPOS blocks before ATOM / between ATOM and BOND / after BOND, comment lines, UNITY sections, "
                 "repeated tags, BOND before ATOM) with EVERY line deleted / duplicated; every returned molecule is compared in CONTENT (elements, "
-                "labels, coordinates, bond endpoints and types, charges) with the molecule at the same position of the undamaged "
-                "text; a case is non-trivial when the text was actually damaged; distinct by (format, base text, damage)")
+                "labels, coordinates, bond endpoints and types, charges, atom types, FORMAL CHARGES and ATTRIBUTES of atoms and bonds) with the "
+                "molecule at the same position of the undamaged text; every line of every UNITY_*_ATTR section deleted / duplicated / "
+                "count, id and tokens spoiled; every undamaged text also compared with what it SAYS (independent reference reading, "
+                "record by record), each record of a multi-record text read ALONE and compared with its molecule inside the text "
+                "(libraries of equal-size records with different content), every text through EVERY entry point (3 classes x string / "
+                "path / stream / generator / first record, top-level loaders; damaged texts two entry points each, in turn); "
+                "a case is non-trivial when the text was actually damaged; distinct by (format, base text, damage)")
     rep.trusted += ["harness/c10.py: damage operators mirrored in Coq (apply_damage), canonicalisation of returned molecules, "
                     "exact rationals for observed floats",
                     "CPython: io.StringIO line iteration, str.split/strip, int(), float() (modelled in Common/ParseStr.v for ASCII)",
@@ -1164,19 +1726,29 @@ def run(ctx, rep):
     return confirm_known(ml)
 
 
+UNITY_LIMIT_LINES = ["@<TRIPOS>MOLECULE", "w", " 2 1 0 0 0", "SMALL", "NO_CHARGES", "", "@<TRIPOS>ATOM",
+                     "      1 N          -1.4800    0.0200    0.0000 N.4     1  GLY        0.0000",
+                     "      2 C           0.0000    0.0000    0.0000 C.3     1  GLY        0.0000",
+                     "@<TRIPOS>UNITY_ATOM_ATTR", "1 1", "charge 1", "2 0", "@<TRIPOS>BOND", "     1     1     2    1"]
 KNOWN_WITNESS = {
-    "C10:xyz:last-numeric-token-truncated": ("xyz", ["1", "w", "C     1.000000     2.000000     3.456700"], ("cut", 2, 40)),
+    "C10:xyz:last-numeric-token-truncated": ("xyz", ["1", "w", "C     1.000000     2.000000     3.456700"], ("cut", 2, 40), "cut-last"),
+    # the type column is the last mandatory one; the columns after it are optional when the header says NO_CHARGES (or the class
+    # has no partial charges): `Cl` cut to `C` is a complete record of another element
+    "C10:mol2:last-numeric-token-truncated": ("mol2", ["@<TRIPOS>MOLECULE", "w", " 1 0 0 0 0", "SMALL", "NO_CHARGES", "", "@<TRIPOS>ATOM",
+                                                       "      1 Cl1         1.0000    2.0000    3.0000 Cl"], ("cut", 7, 48), "cut-last"),
+    # deleting the attribute line leaves `1 1` / `2 0`: a well-formed group whose one attribute is named "2"
+    "C10:mol2:optional-section:damaged-text-still-well-formed": ("mol2", UNITY_LIMIT_LINES, ("del", 11), "unity-del"),
 }
 
 
 def confirm_known(ml):
     out = []
-    for sig, (fmt, lines, d) in KNOWN_WITNESS.items():
+    for sig, (fmt, lines, d, kind) in KNOWN_WITNESS.items():
         orig = observe(ml, fmt, damaged_text(lines, ("none",)))
         o = observe(ml, fmt, damaged_text(lines, d))
         owner = xyz_block_of_line(lines) if fmt == "xyz" else mol2_block_of_line(lines)
         if orig[0] == "ok":
-            v = judge(fmt, lines, owner, orig[1], d, "cut-last", o)
+            v = judge(fmt, lines, owner, orig[1], d, kind, o)
             if v and v[0] == sig:
                 out.append(sig)
     return out
@@ -1197,6 +1769,28 @@ def replay(ctx, data):
                                    "the text with extra sections is accepted but its molecules differ from the plain layout")]
         return []
     owner = xyz_block_of_line(lines) if fmt == "xyz" else mol2_block_of_line(lines)
+    kind = data.get("kind", d[0])
+    if kind == "as-written":
+        v, _ = judge_base(fmt, lines, o0[1])
+        return [vlib.Violation(v[0], v[1])] if v else []
+    if kind == "alone":
+        j = data["record"]
+        recs = record_texts(fmt, lines)
+        v = judge_alone(fmt, j, observe(ml, fmt, alone_text(recs[j])), o0[1][j]) if j < len(recs) and j < len(o0[1]) else None
+        return [vlib.Violation(v[0], v[1])] if v else []
+    if data.get("entry"):
+        eps = entry_points(ml, fmt, ctx.sub("c10_entry_" + fmt))
+        ep = next((e for e in eps if e[0] == data["entry"]), None)
+        if ep is None:
+            return []
+        eo0 = run_limited(ep[2], damaged_text(lines, ("none",)))
+        if kind == "entry-base":
+            v = judge_entry(ep[1], eo0, o0[1])
+            return [vlib.Violation(f"C10:{fmt}:entry-point:{v[0]}", v[1])] if v else []
+        if eo0[0] != "ok":
+            return []
+        v = judge(fmt, lines, owner, eo0[1], d, kind, run_limited(ep[2], damaged_text(lines, d)))
+        return [vlib.Violation(entry_sig(fmt, v[0]), v[1])] if v else []
     o = observe(ml, fmt, damaged_text(lines, d))
-    v = judge(fmt, lines, owner, o0[1], d, data.get("kind", d[0]), o)
+    v = judge(fmt, lines, owner, o0[1], d, kind, o)
     return [vlib.Violation(v[0], v[1])] if v else []
